@@ -78,6 +78,19 @@ CHECKS = {
         "statement. Scale of the base symbols themselves is C02's business.",
         "DESIGN.md section 6 C14",
     ),
+    "C03": (
+        "exhaustive enumeration of ordered unit pairs and triples per dimension x dtype x shape x conversion route on "
+        "the real code; algebraic laws as oracle (identity, inverse, composition, route agreement)",
+        "For every dimension the alphabet is every table symbol plus k/m/µ prefixed forms (all 22 prefixes for "
+        "temperature), compounds, the five CGS<->SI electromagnetic pairs with prefixes and a custom registry "
+        "holding a 6x5 affine scale/offset grid (prefixable and not). Every ordered pair is converted on six routes "
+        "(to, in_units, to(Unit), to_value, convert_to_units, factor by hand) with four dtypes and two shapes; identity "
+        "must be exact, there-and-back and composition through every third unit must hold within 64 eps measured in "
+        "SI; in_base/convert_to_base/in_cgs/in_mks twins must agree for every unit in 7 systems.",
+        "The symbolic 'all real scale/offset' quantifier is replaced by the stated affine grid (a proof is a different "
+        "family). float32 cases whose float64 twin leaves float32's normal range are filtered and counted.",
+        "DESIGN.md section 6 C03",
+    ),
     "C05": (
         "explicit-state closure of the unit algebra (all atoms, depth 2; depth 3 on a 20-unit alphabet) with a "
         "three-representation invariant in every reached state and exhaustive law checking on pairs/triples",
